@@ -14,7 +14,10 @@ Abstractions (everything else mirrors the Go control flow statement by statement
   observable outcome: an error, nothing opened, nothing registered.
 * `ParseWithSuffix`/`ParseWithRegexp`/`Parse` differ only in the predicate: `match : String → Bool`.
 * Loading a file (scanner + tree builder) is abstracted to `Content`: did it fail, and which `:define`
-  names does the tree contain, in the pre-order in which `addDefinedTpl` visits them.
+  attributes does the tree contain, in the pre-order in which `addDefinedTpl` visits them: `some name` for a
+  `define` whose name evaluates to `name`, `none` for one whose name FAILS to evaluate (a valueless
+  `:define`, `:define="${1/0}"`, an unknown variable).  `addDefinedTpl` returns that evaluation error at
+  once, AFTER the file and the fragments before it were registered; nothing is rolled back.
 * The two maps `files`/`templates` are modelled as insertion-ordered key lists (Go never deletes or
   overwrites: every insertion is guarded by a membership test, which is the content of C19).
 
@@ -25,8 +28,9 @@ namespace FP
 structure Content where
   /-- `GetAllTokens` or `ParseTokens` failed (includes a read error while scanning) -/
   loadErr : Bool := false
-  /-- names of the `:define` fragments, document order, nested ones included (pre-order) -/
-  defines : List String := []
+  /-- the `:define` fragments, document order, nested ones included (pre-order): `some name`, or `none` when
+      the name of the fragment fails to evaluate (`attr.Evaluate` returns an error inside `addDefinedTpl`) -/
+  defines : List (Option String) := []
 deriving Repr, DecidableEq
 
 /-- one invocation of the `fs.WalkDir` callback -/
@@ -60,11 +64,15 @@ structure State where
   closes : List String := []
 deriving Repr, DecidableEq
 
-/-- `addDefinedTpl`, flattened: the fragments are registered one by one; the first one whose name is taken
-    aborts with the duplicate-name error and everything registered so far STAYS registered. -/
-def addDefines (s : State) : List String → Result × State
+/-- `addDefinedTpl`, flattened: the fragments are registered one by one; the first one whose name does not
+    evaluate aborts with that evaluation error (`attr.Evaluate`'s error is returned as it is: it is NOT the
+    duplicate-name error; kind `load`, like every other error of `Add` that is neither a file-system nor a
+    duplicate-name error), the first one whose name is taken aborts with the duplicate-name error; in both
+    cases everything registered so far STAYS registered. -/
+def addDefines (s : State) : List (Option String) → Result × State
   | [] => (.ok, s)
-  | d :: ds =>
+  | none :: _ => (.err .load, s)
+  | some d :: ds =>
     if d ∈ s.templates then (.err .duplicate, s)
     else addDefines { s with templates := s.templates ++ [d] } ds
 
@@ -116,8 +124,19 @@ def getTemplate (s : State) (name : String) : Lookup :=
 /-- the entry is a non-directory accepted by the matcher -/
 def Entry.accepted (m : String → Bool) (e : Entry) : Bool := !e.isDir && m e.path
 
-/-- the names an accepted file contributes to the namespace: its own path, then its fragments -/
-def Entry.names (e : Entry) : List String := e.path :: e.content.defines
+/-- the fragment names in front of the first `define` whose name fails to evaluate (all of them if there is
+    none): the names `addDefinedTpl` gets to see -/
+def definedNames : List (Option String) → List String
+  | [] => []
+  | none :: _ => []
+  | some d :: ds => d :: definedNames ds
+
+/-- some `define` of the file has a name that fails to evaluate -/
+def Content.nameErr (c : Content) : Bool := c.defines.contains none
+
+/-- the names an accepted file asks to register: its own path, then its fragments up to the first `define`
+    whose name fails to evaluate -/
+def Entry.names (e : Entry) : List String := e.path :: definedNames e.content.defines
 
 /-- paths of the accepted entries, walk order -/
 def acceptedPaths (m : String → Bool) (es : List Entry) : List String :=
@@ -127,27 +146,30 @@ def acceptedPaths (m : String → Bool) (es : List Entry) : List String :=
 def allNames (m : String → Bool) (es : List Entry) : List String :=
   (es.filter (Entry.accepted m)).flatMap Entry.names
 
-/-- no walk error anywhere, no open or load error at an accepted file -/
+/-- no walk error anywhere; no open error, no load error and no failing `define` name at an accepted file -/
 def NoFsFault (m : String → Bool) (es : List Entry) : Prop :=
-  ∀ e ∈ es, e.walkErr = false ∧ (e.accepted m = true → e.openErr = false ∧ e.content.loadErr = false)
+  ∀ e ∈ es, e.walkErr = false ∧
+    (e.accepted m = true → e.openErr = false ∧ e.content.loadErr = false ∧ e.content.nameErr = false)
 
 instance (m : String → Bool) (es : List Entry) : Decidable (NoFsFault m es) :=
-  inferInstanceAs (Decidable (∀ e ∈ es,
-    e.walkErr = false ∧ (e.accepted m = true → e.openErr = false ∧ e.content.loadErr = false)))
+  inferInstanceAs (Decidable (∀ e ∈ es, e.walkErr = false ∧
+    (e.accepted m = true → e.openErr = false ∧ e.content.loadErr = false ∧ e.content.nameErr = false)))
 
-/-- fault-free input: no file-system/load fault and no name requested twice -/
+/-- fault-free input: no file-system/load/define-name fault and no name requested twice -/
 def Clean (m : String → Bool) (es : List Entry) : Prop :=
   NoFsFault m es ∧ (allNames m es).Nodup
 
 /-- The error entry `e` must produce when `seen` are the names registered by the entries before it;
-    the order of the tests is the order in which the Go code can observe the conditions. -/
+    the order of the tests is the order in which the Go code can observe the conditions.  The last two: a
+    name clash among `e.names` (the path and the fragments in front of the first failing `define` name) is
+    met before that failing name; a clash behind it is never seen. -/
 def faultOf (m : String → Bool) (seen : List String) (e : Entry) : Option ErrKind :=
   if e.walkErr then some .walk
   else if e.accepted m = false then none
   else if e.openErr then some .open
   else if e.path ∈ seen then some .duplicate
   else if e.content.loadErr then some .load
-  else if (seen ++ e.names).Nodup then none
+  else if (seen ++ e.names).Nodup then (if e.content.nameErr then some .load else none)
   else some .duplicate
 
 /-- `fsys.Open` is called on the entry and succeeds (used to state which files are opened) -/
